@@ -197,11 +197,31 @@ Record prog := { p_pre : list act; p_setup : list act; p_body : list act; p_tear
 (* faults injected in front of the real waitpid: the k-th call takes the k-th entry, later calls are real *)
 Inductive inj := IEintr | IErr | IReal.
 
+(* the process-level configuration of the program that runs the tests, while a real child is waited for THROUGH THE REAL
+   PlatformSpecificFork / PlatformSpecificWaitPid implementations (no stub in between):
+   - what the program did to SIGCHLD;
+   - other children of the same process that end meanwhile (already dead when the test's child is forked, or ending while it is
+     waited for);
+   - how many times a signal with a non-restarting handler arrives while the parent is blocked in the wait for the (still
+     living) child: genuine EINTR answers of the kernel. *)
+Inductive chld :=
+| CDefault           (* SIG_DFL *)
+| CIgnore            (* signal(SIGCHLD, SIG_IGN) *)
+| CNoCldWait         (* sigaction: SIG_DFL with SA_NOCLDWAIT *)
+| CNoCldWaitH        (* sigaction: a handler with SA_NOCLDWAIT | SA_RESTART *)
+| CReapFirst         (* a handler (SA_RESTART) that reaps with waitpid(-1, .., WNOHANG) and has run before the runner's wait *)
+| CHandler.          (* a handler (SA_RESTART | SA_NOCLDSTOP) that only counts *)
+Inductive sib :=
+| SibExit (late : bool) (k : N)      (* another child of the process: _exit(k) *)
+| SibKill (late : bool) (sig : N).   (* another child of the process: killed by sig *)
+Record env := { e_chld : chld; e_sibs : list sib; e_eintr : nat }.
+
 Inductive test :=
 | TPlain (fails : bool)                          (* an ordinary test, passing or with one failing check *)
 | TScripted (fork_ok : bool) (ws : list sout)    (* fork and waitpid replaced by stubs replaying these outcomes; after the
                                                     listed outcomes the stub reports a clean exit *)
-| TReal (p : prog) (inject : list inj).          (* a real child *)
+| TReal (p : prog) (inject : list inj)           (* a real child *)
+| TEnv (e : env) (p : prog) (inject : list inj). (* a real child under a process-level configuration *)
 (* a registered test: IGNORE_TEST (an IgnoredUtestShell) or TEST *)
 Record tcase := { c_ign : bool; c_test : test }.
 Record scenario := { s_all_sep : bool;           (* registry-wide flag (-p): every test, also TPlain, gets a child *)
@@ -274,6 +294,26 @@ Fixpoint merge (inject : list inj) (evs : list ev) : list wout :=
   | IReal :: tl => match evs with [] => [] | e :: r => WStat (encode e) :: merge tl r end
   end.
 
+(* Trusted, stated here (wait(2), sigaction(2); Linux): with SIGCHLD ignored or SA_NOCLDWAIT set the kernel reaps a dead
+   child itself -- waitpid(pid, .., WUNTRACED) still reports every stop of the child, then blocks until the child is gone and
+   fails with ECHILD; the same answer when a handler has reaped the child before.  A handler that does not reap, and other
+   children of the process (waitpid is called with the child's own pid), change nothing.  While the child lives, a signal
+   whose handler does not restart system calls makes the blocked wait fail with EINTR. *)
+Definition auto_reaped (c : chld) : bool := match c with CDefault | CHandler => false | _ => true end.
+Definition c_ECHILD : N := 10.
+Definition kernel_answers (c : chld) (stops : list N) (final : ev) : list wout :=
+  map (fun s => WStat (encode (EvStop s))) stops ++ [if auto_reaped c then WErr else WStat (encode final)].
+Definition env_answers (e : env) (stops : list N) (final : ev) : list wout :=
+  repeat WEintr (e_eintr e) ++ kernel_answers (e_chld e) stops final.
+(* injected faults in front of the real wait, over answers *)
+Fixpoint wmerge (inject : list inj) (ws : list wout) : list wout :=
+  match inject with
+  | [] => ws
+  | IEintr :: tl => WEintr :: wmerge tl ws
+  | IErr :: tl => WErr :: wmerge tl ws
+  | IReal :: tl => match ws with [] => [] | w :: r => w :: wmerge tl r end
+  end.
+
 (* ------------------------------------------------------------------------------------------------------------------
    5. observation and run
    ------------------------------------------------------------------------------------------------------------------ *)
@@ -295,6 +335,16 @@ Definition item_of_loop (real : bool) (r : loop_res) : item :=
 Definition run_real (count : N) (p : prog) (inject : list inj) : item :=
   item_of_loop true (parent_loop 0 (merge inject (child_events count p))).
 
+(* a real child under a configuration: the same loop on the answers the real wait gives there.  A child the kernel (or the
+   program's handler) reaps is never "left behind" by the runner *)
+Definition env_item (e : env) (r : loop_res) : item :=
+  let it := item_of_loop true r in
+  {| i_started := i_started it; i_fails := i_fails it; i_calls := i_calls it; i_conts := i_conts it;
+     i_lost := if auto_reaped (e_chld e) then false else i_lost it |}.
+Definition run_env (count : N) (e : env) (p : prog) (inject : list inj) : item :=
+  let (st, f) := child_trace p in
+  env_item e (parent_loop 0 (wmerge inject (env_answers e st (child_final count f)))).
+
 (* runOneTest: separate process or current process; GccPlatformSpecificRunTestInASeperateProcess: fork error / parent *)
 Definition run_test (all_sep : bool) (count : N) (t : test) : item :=
   match t with
@@ -305,6 +355,7 @@ Definition run_test (all_sep : bool) (count : N) (t : test) : item :=
       if ok then item_of_loop false (parent_loop 0 (map conc ws ++ [WStat 0]))
       else {| i_started := true; i_fails := [FFork]; i_calls := 0; i_conts := 0; i_lost := false |}
   | TReal p inject => run_real count p inject
+  | TEnv e p inject => run_env count e p inject
   end.
 
 (* IgnoredUtestShell::runOneTest: if (runIgnored_) { UtestShell::runOneTest(plugin, result); return; } result.countIgnored();
@@ -348,8 +399,17 @@ Definition act_ok (a : act) : bool :=
 Definition prog_ok (p : prog) : bool :=
   forallb act_ok (p_pre p) && forallb act_ok (p_setup p) && forallb act_ok (p_body p) &&
   forallb act_ok (p_teardown p) && forallb act_ok (p_post p).
+Definition sib_ok (b : sib) : bool :=
+  match b with
+  | SibExit _ k => k <? 256
+  | SibKill _ s => (1 <=? s) && (s <=? 31) && match disposition s with DTerm => true | _ => false end
+  end.
+Definition env_ok (e : env) : bool := forallb sib_ok (e_sibs e) && (e_eintr e <=? 64)%nat && (length (e_sibs e) <=? 8)%nat.
 Definition test_ok (t : test) : bool :=
-  match t with TPlain _ => true | TScripted _ ws => forallb sout_ok ws | TReal p _ => prog_ok p end.
+  match t with
+  | TPlain _ => true | TScripted _ ws => forallb sout_ok ws | TReal p _ => prog_ok p
+  | TEnv e p _ => env_ok e && prog_ok p
+  end.
 Definition case_ok (tc : tcase) : bool := test_ok (c_test tc).
 Definition valid (s : scenario) : bool :=
   negb (match s_tests s with [] => true | _ => false end) && forallb case_ok (s_tests s).
@@ -393,6 +453,22 @@ Fixpoint smerge (inject : list inj) (evs : list sout) : list sout :=
 Definition real_stream (p : prog) (inject : list inj) : list sout :=
   let (st, f) := child_trace p in smerge inject (map (fun s => SEv (EvStop s)) st ++ [fate_sout f]).
 
+(* ... and under a process-level configuration: the genuine interruptions first (the child lives on), every stop is reported,
+   and the end of the child is reported as it happened unless the kernel / the program's handler has taken the child away --
+   then the wait FAILS (ECHILD), which is a failing wait, whatever the child's end was *)
+Definition env_stream (e : env) (p : prog) (inject : list inj) : list sout :=
+  let (st, f) := child_trace p in
+  smerge inject (repeat SEintr (e_eintr e) ++ map (fun s => SEv (EvStop s)) st ++
+                 [if auto_reaped (e_chld e) then SErr c_ECHILD else fate_sout f]).
+
+(* the clause "never recorded as passed", on its own: a real child that did not end with exit status 0 *)
+Definition unclean (p : prog) : bool :=
+  match snd (child_trace p) with
+  | FateKilled _ => true
+  | FateExit k => negb (k =? 0)
+  | FateDone n => negb (n =? 0)
+  end.
+
 (* per test: (failures, waits, child must have been reaped) *)
 Definition expected (all_sep : bool) (t : test) : nat * nat * bool :=
   match t with
@@ -401,12 +477,20 @@ Definition expected (all_sep : bool) (t : test) : nat * nat * bool :=
   | TScripted ok ws => if ok then let '(f, c, _) := expect tolerated (ws ++ [SEv (EvExit 0)]) in (f, c, true)
                        else (1%nat, 0%nat, true)
   | TReal p inject => expect tolerated (real_stream p inject)
+  | TEnv e p inject => expect tolerated (env_stream e p inject)
+  end.
+
+(* a child that did not end with exit status 0 leaves at least one failure, whatever the wait reported *)
+Definition never_passed_ok (t : test) (it : item) : bool :=
+  match t with
+  | TReal p _ | TEnv _ p _ => if unclean p then negb (length (i_fails it) =? 0)%nat else true
+  | _ => true
   end.
 
 Definition item_ok (all_sep : bool) (t : test) (it : item) : bool :=
   let '(f, c, reaped) := expected all_sep t in
   i_started it && (length (i_fails it) =? f)%nat && (i_calls it =? c)%nat &&
-  (if reaped then negb (i_lost it) else true).
+  (if reaped then negb (i_lost it) else true) && never_passed_ok t it.
 
 (* an IGNORE_TEST without the run-ignored switch is not run: not started (no child asked for, no action point reached), no
    failure, no wait; with the switch it is held to exactly what the same test not marked ignored is held to *)
